@@ -6,6 +6,7 @@ import (
 	"go/token"
 	"go/types"
 	"math/big"
+	"sort"
 	"strings"
 
 	"ikeverif/checker/xt/ssa"
@@ -210,6 +211,92 @@ func RunC09(c *Ctx, r *Report) {
 
 	// rule 3: GenerateRandomNumber
 	c.randomNumberRules(r, prefix)
+	c.dhConstantsImmutableRule(r, prefix+"group-constants-immutable")
+}
+
+// dhMethodShapes: rule "exp-and-padding" under another property's prefix (C07: the two ends of an exchange
+// end up with the same SKEYSEED only if both represent g^ir as the RFC 7296 2.14 fixed-length string).
+func (c *Ctx) dhMethodShapes(r *Report, rule string) {
+	r.Rule(rule, "GetPublicValue / GetSharedKey of every DH group return Zero(factorBytesLength - len(x)) || x with x = new(big.Int).Exp(base, secret, own factor).Bytes() (the g^ir string SKEYSEED is computed from, RFC 7296 2.14)", 4)
+	nt := c.NamedType("security/dh", "DHType")
+	if nt == nil {
+		r.undecided(rule, "anchor dh.DHType", "-", "anchor does not resolve")
+		return
+	}
+	for _, T := range c.Implementers(nt.Underlying().(*types.Interface)) {
+		for _, mn := range []string{"GetPublicValue", "GetSharedKey"} {
+			m := c.methodOf(T, mn)
+			key := typeKey(T) + "." + mn
+			if m == nil {
+				r.undecided(rule, key, "-", "method not found")
+				continue
+			}
+			okS, dS := c.dhMethodShape(m, mn)
+			r.Check2(okS, dS, rule, key, c.Pos(m.Pos()))
+		}
+	}
+}
+
+// dhConstantsImmutableRule: the primes and generators live in package-level descriptors built by init; the
+// RFC-prime rule compares what init stores. That is the prime every later computation uses only if nothing
+// outside init writes memory reachable from the DH package's variables - in particular no math/big method
+// with a descriptor's number as its receiver (z.Sub(z, ...) overwrites z).
+func (c *Ctx) dhConstantsImmutableRule(r *Report, rule string) {
+	r.Rule(rule, "outside init no function stores to, or passes to a writing callee, memory reachable from the package-level variables of security/dh (group descriptors with their prime, generator and length): the constants init checked are the ones every exchange uses", 1)
+	var scope []*ssa.Function
+	for _, fn := range c.ModFuncs {
+		if !isInitFunc(fn) {
+			scope = append(scope, fn)
+		}
+	}
+	dhPkg := c.Pkg("security/dh")
+	if dhPkg == nil {
+		r.undecided(rule, "package security/dh", "-", "anchor does not resolve")
+		return
+	}
+	n := 0
+	isDH := map[*ssa.Global]bool{}
+	for _, g := range c.moduleGlobals() {
+		if g.Pkg == dhPkg {
+			isDH[g] = true
+			n++
+		}
+	}
+	if n == 0 {
+		r.undecided(rule, "package security/dh", "-", "no package-level variable found")
+		return
+	}
+	ar := c.Alias(&AliasCfg{Scope: scope, Source: func(fn *ssa.Function, v ssa.Value) bool {
+		g, ok := v.(*ssa.Global)
+		return ok && isDH[g]
+	}})
+	var bad []string
+	for _, w := range ar.WritesThrough {
+		bad = append(bad, c.FuncName(w.Fn)+": "+w.What+" at "+c.InstrPos(w.Ins)+" ["+c.SrcExpr(w.Ins)+"]")
+	}
+	for _, w := range ar.ExtArgs {
+		bad = append(bad, c.FuncName(w.Fn)+": "+w.What+" at "+c.InstrPos(w.Ins)+" ["+c.SrcExpr(w.Ins)+"]")
+	}
+	for _, fn := range scope {
+		for _, k := range c.DirectEffects(fn).sorted() {
+			if strings.HasPrefix(k, "global:security/dh.") {
+				bad = append(bad, c.FuncName(fn)+": direct store to "+k)
+			}
+		}
+	}
+	sort.Strings(bad)
+	if len(bad) > 4 {
+		bad = append(bad[:4], fmt.Sprintf("... %d more", len(bad)-4))
+	}
+	nt := 0
+	for _, m := range ar.Tainted {
+		for _, lv := range m {
+			if lv > 0 {
+				nt++
+			}
+		}
+	}
+	r.Check(len(bad) == 0 && nt > 0, rule, "package-level state of security/dh", "-", fmt.Sprintf("%d variable(s), %d derived values tracked through the module, none written outside init", n, nt), strings.Join(bad, "; "))
 }
 
 // Check2 adds an obligation from an (ok, detail) pair.
